@@ -18,6 +18,10 @@ Check(t) ==
     \* and the order of the rows in the batch does not matter
     ELSE IF t.batch2 # t.batch THEN "result-depends-on-later-call-or-row-order"
     ELSE IF \E r \in DOMAIN t.single : t.single[r] # t.batch[r] THEN "row-depends-on-batch"
+    \* two leading batch axes (2, n, d), second slice = the rows reversed: 2 n result rows, each the value at its own point
+    ELSE IF "exc3" \in DOMAIN t /\ t.exc3 # "" THEN "operator-failed(two batch axes):" \o t.exc3
+    ELSE IF "batch3" \in DOMAIN t /\ t.batch3 # <<>> /\ (Len(t.batch3) # 2 * Len(t.batch)
+              \/ \E r \in DOMAIN t.batch : t.batch3[r] # t.batch[r] \/ t.batch3[2 * Len(t.batch) + 1 - r] # t.batch[r]) THEN "value(two batch axes)"
     ELSE "ok"
 Init == tid \in 1..Len(Traces) /\ verdict = Check(Traces[tid]) /\ dev = DevOf(Traces[tid], verdict)
 Next == FALSE /\ UNCHANGED <<tid, verdict, dev>>
